@@ -478,6 +478,22 @@ func (d *dbm) noteVar(id *ast.Ident) {
 				}
 				rhs := s.Rhs[i]
 				k, isC := constInt(d.info, rhs)
+				if ix, isIx := ast.Unparen(rhs).(*ast.IndexExpr); isIx && !isC && (s.Tok == token.DEFINE || s.Tok == token.ASSIGN) {
+					// an element of a constant table
+					if lo, hi, ok := d.constTableRange(ix.X); ok {
+						if first || lo < minC {
+							minC = lo
+						}
+						if first || hi > maxC {
+							maxC = hi
+						}
+						first = false
+						if lo < 0 {
+							nonNegInduct = false
+						}
+						continue
+					}
+				}
 				switch s.Tok {
 				case token.DEFINE, token.ASSIGN:
 					if isC {
@@ -522,11 +538,25 @@ func (d *dbm) noteVar(id *ast.Ident) {
 		case *ast.RangeStmt:
 			for _, l := range []ast.Expr{s.Key, s.Value} {
 				if lid, ok := l.(*ast.Ident); ok && (d.info.Defs[lid] == obj || d.info.Uses[lid] == obj) {
-					allConst = false
+					nAssign++
 					if l == s.Value {
+						// the elements of a constant table
+						if lo, hi, ok := d.constTableRange(s.X); ok {
+							if first || lo < minC {
+								minC = lo
+							}
+							if first || hi > maxC {
+								maxC = hi
+							}
+							first = false
+							if lo < 0 {
+								nonNegInduct = false
+							}
+							continue
+						}
 						nonNegInduct = false
 					}
-					nAssign++
+					allConst = false
 				}
 			}
 		case *ast.ValueSpec:
